@@ -5,6 +5,8 @@ package main
 import (
 	"fmt"
 	"sort"
+	"strings"
+	"time"
 
 	"golang.org/x/tools/go/ssa"
 )
@@ -357,6 +359,8 @@ func rawParts(fr *evalFrame, v ssa.Value, depth int, out map[ssa.Value]bool, see
 			return
 		}
 		out[v] = true
+	case *ssa.Const:
+		// a constant time of day (the midnight a date is stepped from) has no raw part
 	default:
 		out[v] = true
 	}
@@ -364,21 +368,23 @@ func rawParts(fr *evalFrame, v ssa.Value, depth int, out map[ssa.Value]bool, see
 
 func r04_9(c *Ctx, r *Report) {
 	const rule = "R04.9"
-	r.rule(rule, "Rounding carries cascade. NewSolarFromJulianDay splits the fraction of the day into hour, minute and the rounded second (the three float-to-integer conversions the time arguments of NewSolar flow from) and hands NewSolar the normalised time: for raw parts hour 0..23, minute 0..59, second 0..60 (60 after rounding up) the evaluator follows the carries and the arguments must equal the time and the day carry of hour*3600 + minute*60 + second seconds — 23:59:60 is 00:00:00 of the next day. The parts are abstract inputs; no Julian Day is converted.")
+	r.rule(rule, "Rounding carries cascade, up to the date. NewSolarFromJulianDay splits the fraction of the day into hour, minute and the rounded second (the three float-to-integer conversions the time arguments of NewSolar flow from) and builds its result from the normalised time: for raw parts hour 0..23, minute 0..59, second 0..60 (60 after rounding up) and for day numbers that fall in the middle of a month, on the last day of a 31-day month, of February and of the year, the evaluator follows the carries (NextDay supplied by the checker's calendar) and the moment built must be the civil date plus the day carry of hour*3600 + minute*60 + second seconds, at the remaining time — 23:59:60 on 31 January is 00:00:00 on 1 February, not a 32nd of January. The three parts are abstract inputs.")
 	fn := c.Fn(r, rule, "calendar.NewSolarFromJulianDay")
 	if fn == nil {
 		return
 	}
-	construct := "calendar.NewSolarFromJulianDay carries second -> minute -> hour -> day"
+	construct := "calendar.NewSolarFromJulianDay carries second -> minute -> hour -> civil date"
 	var call *ssa.Call
+	var calls []*ssa.Call
 	for _, b := range fn.Blocks {
 		for _, ins := range b.Instrs {
-			if cl, ok := ins.(*ssa.Call); ok && cl.Common().StaticCallee() != nil && fname(cl.Common().StaticCallee()) == "calendar.NewSolar" {
+			if cl, ok := ins.(*ssa.Call); ok && cl.Common().StaticCallee() != nil && fname(cl.Common().StaticCallee()) == "calendar.NewSolar" && len(cl.Common().Args) == 6 {
 				call = cl
+				calls = append(calls, cl)
 			}
 		}
 	}
-	if call == nil || len(call.Common().Args) != 6 {
+	if call == nil {
 		r.bad(rule, construct, c.fnPos(fn), "no call of NewSolar found (undecided = fail)")
 		return
 	}
@@ -387,8 +393,10 @@ func r04_9(c *Ctx, r *Report) {
 	// inlined helpers), ordered by what each is computed from: the hour from the fraction, the minute
 	// from what the hour left, the second from what the minute left
 	set := map[ssa.Value]bool{}
-	for i := 0; i < 3; i++ {
-		rawParts(top, call.Common().Args[3+i], 0, set, map[ssa.Value]bool{})
+	for _, cl := range calls {
+		for i := 0; i < 3; i++ {
+			rawParts(top, cl.Common().Args[3+i], 0, set, map[ssa.Value]bool{})
+		}
 	}
 	var convs []ssa.Value
 	for v := range set {
@@ -431,8 +439,14 @@ func r04_9(c *Ctx, r *Report) {
 		return
 	}
 	parts := [3]ssa.Value{convs[0], convs[1], convs[2]}
-	runCase := func(h, m, s int64) (absSolar, string) {
+	civil := func(y, m, d int64) time.Time { return time.Date(int(y), time.Month(m), int(d), 0, 0, 0, 0, time.UTC) }
+	runCase := func(jd float64, h, m, s int64) (absSolar, string) {
 		var leaf leafX
+		asSolar := func(fr *evalFrame, v ssa.Value) (absSolar, bool) {
+			o, ok := evalWith(fr, v, leaf)
+			sol, isS := o.(absSolar)
+			return sol, ok && isS
+		}
 		leaf = func(fr *evalFrame, v ssa.Value) (interface{}, bool) {
 			switch v {
 			case parts[0]:
@@ -443,9 +457,33 @@ func r04_9(c *Ctx, r *Report) {
 				return s, true
 			}
 			if fr.parent == nil && len(fn.Params) == 1 && v == ssa.Value(fn.Params[0]) {
-				return float64(2460000.25), true // any day number; the fraction is not used: the three parts are abstract
+				return jd, true // the day number fixes the date; the fraction is not used: the three parts are abstract
 			}
-			if cl, ok := v.(*ssa.Call); ok && cl.Common().StaticCallee() != nil && fname(cl.Common().StaticCallee()) == "calendar.NewSolar" {
+			if rc, f, ok := getterField(c, v); ok && strings.HasPrefix(f, "Solar.") {
+				if sol, ok := asSolar(fr, rc); ok {
+					switch f {
+					case "Solar.year":
+						return sol.y, true
+					case "Solar.month":
+						return sol.m, true
+					case "Solar.day":
+						return sol.d, true
+					case "Solar.hour":
+						return sol.h, true
+					case "Solar.minute":
+						return sol.mi, true
+					case "Solar.second":
+						return sol.s, true
+					}
+				}
+				return nil, false
+			}
+			cl, ok := v.(*ssa.Call)
+			if !ok || cl.Common().StaticCallee() == nil {
+				return nil, false
+			}
+			switch fname(cl.Common().StaticCallee()) {
+			case "calendar.NewSolar", "calendar.NewSolarFromYmd":
 				var a []int64
 				for _, x := range cl.Common().Args {
 					o, ok := evalWith(fr, x, leaf)
@@ -455,7 +493,19 @@ func r04_9(c *Ctx, r *Report) {
 					}
 					a = append(a, k)
 				}
-				return absSolar{0, 0, a[2], a[3], a[4], a[5]}, true
+				for len(a) < 6 {
+					a = append(a, 0)
+				}
+				return absSolar{a[0], a[1], a[2], a[3], a[4], a[5]}, true
+			case "calendar.(*Solar).NextDay":
+				sol, ok1 := asSolar(fr, cl.Common().Args[0])
+				ko, ok2 := evalWith(fr, cl.Common().Args[1], leaf)
+				k, isI := ko.(int64)
+				if !ok1 || !ok2 || !isI || sol.m < 1 || sol.m > 12 || sol.d < 1 || sol.d > int64(civil(sol.y, sol.m+1, 0).Day()) {
+					return nil, false
+				}
+				t := civil(sol.y, sol.m, sol.d).AddDate(0, 0, int(k))
+				return absSolar{int64(t.Year()), int64(t.Month()), int64(t.Day()), sol.h, sol.mi, sol.s}, true
 			}
 			return nil, false
 		}
@@ -466,32 +516,41 @@ func r04_9(c *Ctx, r *Report) {
 		}
 		sol, ok := res[0].(absSolar)
 		if !ok {
-			return absSolar{}, "the result is not a NewSolar call"
+			return absSolar{}, "the result is not built by NewSolar"
 		}
 		return sol, ""
 	}
-	base, msg := runCase(0, 0, 0)
 	var bad []string
 	n := 0
-	if msg != "" {
-		bad = append(bad, msg)
-	} else {
+	// day numbers (at 06:00) of a day in the middle of a month, the last day of a 31-day month, of February, of the year
+	for _, date := range [][3]int64{{2023, 2, 24}, {2023, 1, 31}, {2023, 2, 28}, {2023, 12, 31}} {
+		jd := float64(civil(date[0], date[1], date[2]).Unix())/86400 + 2440587.5 + 0.25
+		base, msg := runCase(jd, 0, 0, 0)
+		if msg != "" {
+			bad = append(bad, msg)
+			break
+		}
+		if base.y != date[0] || base.m != date[1] || base.d != date[2] {
+			bad = append(bad, fmt.Sprintf("day number %.2f is read as %d-%d-%d, the checker's calendar says %d-%d-%d", jd, base.y, base.m, base.d, date[0], date[1], date[2]))
+			break
+		}
 		for h := int64(0); h < 24 && len(bad) < 4; h++ {
 			for _, m := range []int64{0, 1, 30, 58, 59} {
 				for _, s := range []int64{0, 1, 30, 59, 60} {
-					got, msg := runCase(h, m, s)
+					got, msg := runCase(jd, h, m, s)
 					n++
 					total := h*3600 + m*60 + s
-					want := absSolar{0, 0, base.d + total/86400, total % 86400 / 3600, total % 3600 / 60, total % 60}
+					t := civil(date[0], date[1], date[2]).AddDate(0, 0, int(total/86400))
+					want := absSolar{int64(t.Year()), int64(t.Month()), int64(t.Day()), total % 86400 / 3600, total % 3600 / 60, total % 60}
 					if msg != "" {
 						bad = append(bad, msg)
 					} else if got != want {
-						bad = append(bad, fmt.Sprintf("raw %02d:%02d:%02d becomes day+%d %02d:%02d:%02d, expected day+%d %02d:%02d:%02d", h, m, s, got.d-base.d, got.h, got.mi, got.s, want.d-base.d, want.h, want.mi, want.s))
+						bad = append(bad, fmt.Sprintf("%d-%02d-%02d raw %02d:%02d:%02d becomes %d-%02d-%02d %02d:%02d:%02d, expected %d-%02d-%02d %02d:%02d:%02d", date[0], date[1], date[2], h, m, s, got.y, got.m, got.d, got.h, got.mi, got.s, want.y, want.m, want.d, want.h, want.mi, want.s))
 					}
 				}
 			}
 		}
 	}
 	sort.Strings(bad)
-	r.check(len(bad) == 0 && n == 600, rule, construct, c.pos(call.Pos()), fmt.Sprintf("%d raw (hour, minute, second) triples followed; deviations: %v", n, headList(dedupe(bad), 3)))
+	r.check(len(bad) == 0 && n == 2400, rule, construct, c.pos(call.Pos()), fmt.Sprintf("%d (date, raw hour, minute, second) cases followed; deviations: %v", n, headList(dedupe(bad), 3)))
 }
